@@ -206,4 +206,85 @@ theorem parseS_genBody (ss : List PyStmt) (h : WFSL ss) (hh : noHandlers ss = tr
   simp only [List.append_nil] at this
   simp [pyParseS, this]
 
+/-! ### supported statements are accepted by the generator -/
+
+theorem genOkList_sup (es : List PyExpr) (h : ∀ e ∈ es, Supported e) : genOkList es = true := by
+  induction es with
+  | nil => rfl
+  | cons e es ih => simp [genOkList, wf_genOk e (h e (by simp)).1, ih (fun x hx => h x (by simp [hx]))]
+
+theorem genOkOpt_sup (o : Option PyExpr) (h : SupportedO o) : genOkOpt o = true := by
+  cases o with
+  | none => rfl
+  | some e => simp [genOkOpt, wf_genOk e (h e rfl).1]
+
+theorem hvS :
+    hasVisitor cs!"Expr" = true ∧ hasVisitor cs!"Assign" = true ∧ hasVisitor cs!"AugAssign" = true
+    ∧ hasVisitor cs!"Return" = true ∧ hasVisitor cs!"Pass" = true ∧ hasVisitor cs!"Break" = true
+    ∧ hasVisitor cs!"Continue" = true ∧ hasVisitor cs!"Assert" = true ∧ hasVisitor cs!"Raise" = true
+    ∧ hasVisitor cs!"If" = true ∧ hasVisitor cs!"While" = true ∧ hasVisitor cs!"For" = true
+    ∧ hasVisitor cs!"With" = true ∧ hasVisitor cs!"Try" = true ∧ hasVisitor cs!"ExceptHandler" = true
+    ∧ hasVisitor cs!"FunctionDef" = true ∧ hasVisitor cs!"ClassDef" = true ∧ hasVisitor cs!"arguments" = true := by
+  decide
+
+mutual
+theorem wfs_genOk : ∀ (s : PyStmt), WFS s → genOkS s = true
+  | .expr e, h => by simp only [WFS] at h; simp [genOkS, hvS, wf_genOk e h.1]
+  | .assign ts v, h => by
+      simp only [WFS] at h
+      simp [genOkS, hvS, genOkList_sup ts h.2.1, wf_genOk v h.2.2.1]
+  | .augAssign t op v, h => by
+      simp only [WFS] at h
+      simp [genOkS, hvS, h.1, wf_genOk t h.2.1.1, wf_genOk v h.2.2.1]
+  | .return_ v, h => by simp only [WFS] at h; simp [genOkS, hvS, genOkOpt_sup v h]
+  | .pass_, _ => by simp [genOkS, hvS]
+  | .break_, _ => by simp [genOkS, hvS]
+  | .continue_, _ => by simp [genOkS, hvS]
+  | .assert_ t m, h => by simp only [WFS] at h; simp [genOkS, hvS, wf_genOk t h.1.1, genOkOpt_sup m h.2]
+  | .raise_ e c, h => by simp only [WFS] at h; simp [genOkS, hvS, genOkOpt_sup e h.1, genOkOpt_sup c h.2.1]
+  | .if_ t b o, h => by
+      simp only [WFS] at h
+      simp [genOkS, hvS, wf_genOk t h.1.1, wfsl_genOk b h.2.1, wfsl_genOk o h.2.2.1]
+  | .while_ t b o, h => by
+      simp only [WFS] at h
+      simp [genOkS, hvS, wf_genOk t h.1.1, wfsl_genOk b h.2.1, wfsl_genOk o h.2.2.1]
+  | .for_ t it b o, h => by
+      simp only [WFS] at h
+      simp [genOkS, hvS, wf_genOk t h.1.1, wf_genOk it h.2.1.1, wfsl_genOk b h.2.2.1, wfsl_genOk o h.2.2.2.1]
+  | .with_ items b, h => by
+      simp only [WFS] at h
+      have : items.all (fun i => genOk i.1 && genOkOpt i.2) = true := by
+        apply List.all_eq_true.mpr
+        intro i hi
+        have := h.2.1 i hi
+        simp [wf_genOk i.1 this.1.1, genOkOpt_sup i.2 this.2]
+      simp [genOkS, hvS, this, wfsl_genOk b h.2.2.1]
+  | .try_ b hs o f, h => by
+      simp only [WFS] at h
+      obtain ⟨h1, h2, _, h4, h5, _⟩ := h
+      simp [genOkS, hvS, wfsl_genOk b h1, wfsl_genOk hs h2, wfsl_genOk o h4, wfsl_genOk f h5]
+  | .handler t n b, h => by
+      simp only [WFS] at h
+      simp [genOkS, hvS, genOkOpt_sup t h.1, wfsl_genOk b h.2.2.1]
+  | .functionDef name po ar va ko ka body decos ret tp, h => by
+      simp only [WFS] at h
+      obtain ⟨_, ⟨p1, p2, p3, p4, p5, _⟩, hb, _, hd, hret, _⟩ := h
+      simp [genOkS, hvS, wf_genOkL po p1, wf_genOkL ar p2, wf_genOkO va p3, wf_genOkL ko p4, wf_genOkO ka p5,
+        wfsl_genOk body hb, genOkList_sup decos hd, genOkOpt_sup ret hret]
+  | .classDef name bases kws body decos tp, h => by
+      simp only [WFS] at h
+      obtain ⟨_, hb0, _, hk, _, hb, _, hd, _⟩ := h
+      simp [genOkS, hvS, wf_genOkL bases hb0, wf_genOkL kws hk, wfsl_genOk body hb, genOkList_sup decos hd]
+  | .delete _, h => by simp [WFS] at h
+  | .global_ _, h => by simp [WFS] at h
+  | .import_ _, h => by simp [WFS] at h
+  | .importFrom _ _ _, h => by simp [WFS] at h
+  | .unsupported _, h => by simp [WFS] at h
+theorem wfsl_genOk : ∀ (ss : List PyStmt), WFSL ss → genOkBody ss = true
+  | [], _ => rfl
+  | s :: ss, h => by
+      simp only [WFSL] at h
+      simp [genOkBody, wfs_genOk s h.1, wfsl_genOk ss h.2]
+end
+
 end Genshi.Py
